@@ -4,7 +4,7 @@
    circumscribed edges, the rounded-rectangle box and the winding of the trig outlines are decided by
    the oracles on sampled outputs (exploration), see DESIGN.md. *)
 From Coq Require Import Reals ZArith List Lia.
-From SCAD Require Import Base.Num Base.NumR Base.Vec Base.Vec_proofs Base.Rot_proofs Geom.Poly Geom.Dim2 Geom.Dim2_proofs Geom.Dim2_winding.
+From SCAD Require Import Base.Num Base.NumR Base.Vec Base.Vec_proofs Base.Rot_proofs Geom.Poly Geom.Dim2 Geom.Dim2_proofs Geom.Dim2_winding Geom.Simple.
 Import ListNotations.
 Local Open Scope R_scope.
 
@@ -96,3 +96,20 @@ Proof. exact rounded_rect_clockwise. Qed.
    `center` puts it) *)
 Theorem C07_area_translation_invariant : forall (v : pt2 R) l, area2 (pt2s_translate l v) = area2 l.
 Proof. exact area2_translate. Qed.
+(* SIMPLE: pairwise distinct vertices, and two edges that are not neighbours share no point (closed segments, the closing
+   edge included). Every circle, inscribed and circumscribed polygon with at least 3 sides is simple (they are in strictly
+   convex position: every other vertex lies strictly on the inner side of every edge) *)
+Theorem C07_convex_outlines_simple : forall (n : Z) (radius : R) pts, (3 <= n)%Z -> radius <> 0%R ->
+  (circle radius n = Some pts -> simple pts) /\ (inscribed_polygon n radius = Some pts -> simple pts) /\
+  (circumscribed_polygon n radius = Some pts -> simple pts).
+Proof.
+  intros n r pts Hn Hr. destruct (polygons_simple n r pts Hn Hr) as [H1 H2].
+  split; [intros E; apply (circle_simple r n); assumption|split; assumption].
+Qed.
+(* the chamfer outline is simple exactly in the range the library uses: 0 < oversize < size (all 14 pairs of
+   non-neighbouring edges are separated by the line through one of them); for oversize >= size it is not
+   (C07_chamfer_oversize_refuted / known finding) *)
+Theorem C07_chamfer_simple : forall size oversize : R, (0 < oversize)%R -> (oversize < size)%R -> simple (chamfer size oversize).
+Proof. exact chamfer_simple. Qed.
+Theorem C07_chamfer_not_simple_from_size_on : forall size oversize : R, (0 < size)%R -> (size <= oversize)%R -> ~ simple (chamfer size oversize).
+Proof. exact chamfer_not_simple. Qed.
